@@ -127,7 +127,7 @@ def run_batch(check, prop: str, tier: str, seed: int, runs: int, budget: float, 
     agg = {"runs": 0, "stats": Counter(), "shapes": set(), "nt_shapes": set(), "nontrivial": 0, "viol": [], "harness": [],
            "hangs": [], "samples": [], "digests": {}, "ended": 0, "hashseeds": sorted({x["hs"] for x in procs}), "xmismatch": []}
     alive = len(procs)
-    hang_limit = float(os.environ.get("DSIM_HANG_S", "240"))
+    hang_limit = float(os.environ.get("DSIM_HANG_S", str(getattr(check, "HANG_S", 240))))
     t0 = time.monotonic()
     hard_deadline = t0 + budget + hang_limit + 60
     while alive > 0:
